@@ -58,3 +58,11 @@ Print Assumptions C04_ejected_not_probed.
 Theorem C04_eligible_iff_outside_window : forall now b, pb_flag (refresh now b) = negb (Shutdown.in_window b now).
 Proof. exact refresh_flag. Qed.
 Print Assumptions C04_eligible_iff_outside_window.
+
+(* ---- the expiry check racing a fresh ejection (step-level model Model/Conc.v, replayed on the real code by the sched suite) ---- *)
+From Helios Require Import Model.Conc Proofs.ConcProofs.
+(* for EVERY schedule of ANY number of lazy-expiry checks and ejections, the backend is never marked healthy while inside a
+   fresh unhealthy window *)
+Theorem C04_expiry_never_overrides_a_fresh_ejection : forall kinds sched, s1_ok (fst (s1_run kinds sched)) = true.
+Proof. exact s1_all_schedules. Qed.
+Print Assumptions C04_expiry_never_overrides_a_fresh_ejection.
